@@ -622,11 +622,72 @@ def _mc(inp, text, filters, mode=1, ic="@", null=None, groups=None):
             "filters": filters, "groups": groups or [1] * len(filters), "seed": 5}
 
 
+# ---------------------------------------------------------------- write / read histories
+
+def gen_hist_value(rng):
+    r = rng.random()
+    if r < 0.4:
+        return repr(float(rng.randint(0, 200)))
+    if r < 0.75:
+        return repr(round(rng.uniform(-50, 150), rng.randint(1, 3)))
+    if r < 0.85:
+        return repr(rng.uniform(-1, 1) * 10.0 ** rng.randint(-8, 8))
+    if r < 0.92:
+        return "nan"
+    return rng.choice(["0.0", "-99.0", "1e-05", "123456789.125"])
+
+
+def gen_history_case(rng: random.Random):
+    """A model with a dataset, then a history of write_csv / write_model / dataset changes (values only with or
+    without the datainfo passed along, added / dropped columns, removed rows) writing to the same and to other
+    paths with force True / False; after every step the files and after every write the read-back are checked."""
+    extras = rng.sample(["WGT", "APGR", "X1", "AGE"], rng.randint(0, 3))
+    cols = ["ID", "TIME", "DV"] + extras
+    nrows = rng.randint(2, 6)
+    rows, cid, t = [], 1, 0.0
+    for i in range(nrows):
+        if i and rng.random() < 0.4:
+            cid += 1
+            t = 0.0
+        rows.append([repr(float(cid)), repr(t)] + [gen_hist_value(rng) for _ in cols[2:]])
+        t += rng.choice([0.5, 1.0, 2.0])
+
+    def change():
+        r = rng.random()
+        col = rng.choice(cols[2:])
+        if r < 0.55:
+            return ["set_values", rng.random() < 0.7, col, rng.choice(["mul", "add", "nan", "round"]),
+                    rng.choice([1000.0, 0.5, 2.0, -1.0, 0.001, 3.25])]
+        if r < 0.7:
+            return ["add_column", rng.choice(["NEW1", "COV2", "FLAG"]), [gen_hist_value(rng) for _ in range(8)]]
+        if r < 0.8 and extras:
+            return ["drop_column", rng.choice(extras)]
+        return ["filter_rows", rng.random() < 0.6, [rng.random() < 0.7 for _ in range(8)]]
+
+    def write():
+        return ["write_csv", wchoice(rng, [("A.csv", 30), ("B.csv", 20), ("cur", 30), ("dir", 20)]), rng.random() < 0.65]
+
+    ops, nm = [], [1]
+
+    def wmodel():
+        nm[0] += 1
+        return ["write_model", f"m{nm[0]}.mod", rng.random() < 0.8]
+
+    for _ in range(rng.randint(2, 7)):
+        r = rng.random()
+        ops.append(write() if r < 0.4 else (change() if r < 0.75 else wmodel()))
+    if rng.random() < 0.6:
+        tgt = rng.choice(["A.csv", "B.csv", "cur"])
+        ops += [["write_csv", tgt, True], wmodel(), change(), ["write_csv", tgt if rng.random() < 0.8 else "cur", True], wmodel()]
+    return {"kind": "history", "cols": cols, "rows": rows, "ops": ops, "seed": rng.randrange(1 << 30)}
+
+
 def gen_cases(rng: random.Random, n: int, tier: str):
     out = []
     for _ in range(n):
         r = rng.random()
-        out.append(gen_roundtrip_case(rng) if r < 0.07 else (gen_model_case(rng) if r < 0.27 else gen_read_case(rng)))
+        out.append(gen_roundtrip_case(rng) if r < 0.05 else (gen_model_case(rng) if r < 0.22 else
+                                                              (gen_history_case(rng) if r < 0.30 else gen_read_case(rng))))
     return out
 
 
@@ -683,12 +744,38 @@ def corpus_cases():
             [["WGT", "gt", "100", "WGT.GT.100"], ["CONC", "seq", "x", "CONC.EQ.x"]], groups=[2]),
         _mc([["ID", None], ["DOSE", "AMT"], ["DROP", None], ["SEX", "DROP"], ["SKIP", "X1"]],
             "#h\n1,0,a,b,c\n2,5,d,e,f\n", [["AMT", "ge", "1", "AMT>=1"], ["X1", "seq", "c", "X1=c"]], ic=None, mode=2),
+        # history: write, change the values with the datainfo kept, write again to the same path, read back
+        {"kind": "history", "cols": ["ID", "TIME", "DV", "WGT"],
+         "rows": [["1.0", "0.0", "1.5", "70.0"], ["1.0", "1.0", "2.5", "70.0"], ["2.0", "0.0", "nan", "81.5"]],
+         "ops": [["write_csv", "A.csv", False], ["write_model", "m2.mod", True], ["set_values", True, "WGT", "mul", 1000.0],
+                 ["write_csv", "A.csv", True], ["write_model", "m3.mod", True], ["write_csv", "A.csv", False],
+                 ["set_values", False, "DV", "add", 2.0], ["write_model", "m4.mod", True], ["write_csv", "dir", True],
+                 ["add_column", "NEW1", ["1.0", "2.0", "3.0"]], ["write_csv", "cur", True], ["write_model", "m5.mod", False]],
+         "seed": 9},
         {"kind": "roundtrip", "cols": ["ID", "TIME", "DV"], "rows": [["1.0", "0.0", "-2.2250738585072014e-308"],
                                                                        ["2.0", "1.0", "nan"]], "seed": 3},
     ]
 
 
 def shrink(case):
+    if case["kind"] == "history":
+        ops = case["ops"]
+        for i in range(len(ops)):
+            if len(ops) > 1:
+                c = dict(case)
+                c["ops"] = ops[:i] + ops[i + 1:]
+                yield c
+        if len(case["rows"]) > 1:
+            c = dict(case)
+            c["rows"] = case["rows"][:-1]
+            yield c
+        if len(case["cols"]) > 3:
+            c = dict(case)
+            c["cols"] = case["cols"][:-1]
+            c["rows"] = [r[:-1] for r in case["rows"]]
+            c["ops"] = [o for o in ops if not (o[0] in ("set_values", "drop_column") and case["cols"][-1] in o)]
+            yield c
+        return
     if case["kind"] == "model":
         lines = case["text"].split("\n")
         for i in range(len(lines)):
@@ -750,14 +837,14 @@ def shrink(case):
 # ---------------------------------------------------------------- real-code side
 
 def worker_init():
-    global pd, np, ds, DatasetError, EmptyDataError, IntCastingNaNError, read_model, NMTranParser, nm_parsing
+    global pd, np, ds, DatasetError, EmptyDataError, IntCastingNaNError, read_model, NMTranParser, nm_parsing, write_csv, write_model
     warnings.simplefilter("ignore")
     import numpy as np  # noqa
     import pandas as pd  # noqa
     from pandas.errors import EmptyDataError, IntCastingNaNError  # noqa
     import pharmpy.model.external.nonmem.dataset as ds  # noqa
     from pharmpy.model import DatasetError  # noqa
-    from pharmpy.modeling import read_model  # noqa
+    from pharmpy.modeling import read_model, write_csv, write_model  # noqa
     from pharmpy.model.external.nonmem.nmtran_parser import NMTranParser  # noqa
     import pharmpy.model.external.nonmem.parsing as nm_parsing  # noqa
 
@@ -1229,6 +1316,8 @@ def run_case(case, drv):
         return run_roundtrip(case, drv)
     if case["kind"] == "model":
         return run_model_case(case, drv)
+    if case["kind"] == "history":
+        return run_history_case(case, drv)
     k, mon, tags = [], [], []
     text = case["text"]
     real = real_read(case)
@@ -1520,6 +1609,164 @@ def run_model_case(case, drv):
                 judge_with_reference(rc, real, tags, mon, "model-read-differs-from-reference", try_orders=True)
     nontrivial = len(case["filters"]) >= 2 and (real[0] == "ok" or real[1].startswith("DatasetError"))
     return {"k": k, "mon": mon, "tags": tags, "nontrivial": bool(nontrivial)}
+
+
+# ---------------------------------------------------------------- history run
+
+def frame_of(df):
+    """header and cell texts exactly as DataFrame.to_csv(na_rep=token, index=False) renders them"""
+    buf = StringIO()
+    df.to_csv(buf, na_rep=MISSING, index=False)
+    lines = buf.getvalue().split("\n")
+    assert lines[-1] == ""
+    return [lines[0].split(","), [l.split(",") for l in lines[1:-1]]]
+
+
+def frames_equal(a, b):
+    if list(a.columns) != list(b.columns) or a.shape != b.shape:
+        return False
+    for c in a.columns:
+        for x, y in zip(a[c].tolist(), b[c].tolist()):
+            x, y = float(x), float(y)
+            if not ((math.isnan(x) and math.isnan(y)) or x == y):
+                return False
+    return True
+
+
+def run_history_case(case, drv):
+    from harness.common.paths import scratch_root
+    import shutil
+    k, mon, tags = [], [], ["kind:history", f"h-nops={len(case['ops'])}"]
+    _CASE_NO[0] += 1
+    d = scratch_root() / f"c13h-{os.getpid()}-{_CASE_NO[0]}"
+    d.mkdir(parents=True, exist_ok=True)
+    try:
+        text = ",".join(case["cols"]) + "\n" + "".join(",".join(MISSING if v == "nan" else v for v in r) + "\n" for r in case["rows"])
+        (d / "data.dat").write_text(text)
+        (d / "run1.mod").write_text(f"$PROBLEM c13\n$INPUT {' '.join(case['cols'])}\n$DATA data.dat IGNORE=@\n$PRED\n"
+                                    "Y = THETA(1) + ETA(1) + EPS(1)\n$THETA 1\n$OMEGA 1\n$SIGMA 1\n$ESTIMATION METHOD=1\n")
+        with warnings.catch_warnings():
+            warnings.simplefilter("ignore")
+            model = read_model(d / "run1.mod")
+
+            def snapshot(m):
+                fs = {p.name: p.read_text() for p in sorted(d.iterdir()) if p.suffix != ".mod"}
+                pth = m.datainfo.path
+                if pth is not None:
+                    pth = pth.name if pth.parent == d else str(pth)
+                return fs, [frame_of(m.dataset), [] if pth is None else [pth], m.name]
+
+            synced = True       # the file datainfo.path points at was written by pharmpy for the current dataset (or read from it)
+            for step, op in enumerate(case["ops"]):
+                before_fs, before_st = snapshot(model)
+                df = model.dataset
+                status, lean_op = "ok", None
+                tags.append("h-op:" + op[0])
+                try:
+                    if op[0] == "write_csv":
+                        tgt = op[1]
+                        if tgt == "cur":
+                            tgt = model.datainfo.path.name if model.datainfo.path is not None else "A.csv"
+                        lean_op = ["write", "dir" if tgt == "dir" else ["file", tgt], "true" if op[2] else "false"]
+                        tags.append("h-write:" + ("same-path" if before_st[1] == [tgt] else ("dir" if tgt == "dir" else "other-path"))
+                                    + (":force" if op[2] else ""))
+                        model = write_csv(model, path=d if tgt == "dir" else d / tgt, force=op[2])
+                        synced = True
+                    elif op[0] == "write_model":
+                        lean_op = ["writemodel", op[1], "true" if op[2] else "false"]
+                        model = write_model(model, d / op[1], force=op[2])
+                    else:
+                        keep = False
+                        if op[0] == "set_values":
+                            keep, col, how, par = op[1], op[2], op[3], op[4]
+                            if col not in df.columns:
+                                continue
+                            df2 = df.copy()
+                            if how == "mul":
+                                df2[col] = df2[col] * par
+                            elif how == "add":
+                                df2[col] = df2[col] + par
+                            elif how == "round":
+                                df2[col] = (df2[col] * par).round(2)
+                            else:
+                                df2.loc[df2.index[0], col] = float("nan")
+                        elif op[0] == "add_column":
+                            if op[1] in df.columns:
+                                continue
+                            df2 = df.copy()
+                            df2[op[1]] = [float(v) for v in (op[2] * 3)[:len(df2)]]
+                        elif op[0] == "drop_column":
+                            if op[1] not in df.columns:
+                                continue
+                            df2 = df.drop(columns=[op[1]])
+                        else:
+                            keep = op[1]
+                            mask = (op[2] * 3)[:len(df)]
+                            if not any(mask):
+                                continue
+                            df2 = df[mask].reset_index(drop=True)
+                        lean_op = ["setdata", frame_of(df2), "true" if keep else "false"]
+                        tags.append("h-change:" + ("datainfo-kept" if keep else "datainfo-derived"))
+                        model = model.replace(dataset=df2, datainfo=model.datainfo) if keep else model.replace(dataset=df2)
+                        if keep:
+                            synced = False
+                        if not frames_equal(model.dataset, df2):
+                            mon.append({"cls": "replace-dataset-not-set", "what": f"step {step} {op[:2]}: model.dataset is not the frame that was set"})
+                except FileExistsError:
+                    status = "FileExistsError"
+                except Exception as e:
+                    mon.append({"cls": "history-op-raises", "what": f"step {step} {op[:3]} raised {type(e).__name__}: {str(e)[:150]}"})
+                    break
+                tags.append("h-status:" + status)
+                after_fs, after_st = snapshot(model)
+                # ---- K: the file system and the model's (dataset, datainfo.path, name) after the step
+                if drv is not None and lean_op is not None:
+                    a = drv.ask(["hstep", [[n_, c_] for n_, c_ in before_fs.items()], before_st, lean_op])
+                    m_fs = {p_: c_ for p_, c_ in a[1][0]}
+                    m_st = a[1][1]
+                    if a[0] != status:
+                        k.append(f"step {step} {op[:3]}: model {a[0]} code {status}")
+                    elif m_fs != after_fs:
+                        diff = sorted(n_ for n_ in set(m_fs) | set(after_fs) if m_fs.get(n_) != after_fs.get(n_))
+                        k.append(f"step {step} {op[:3]}: files differ at {diff}: model {[m_fs.get(n_) for n_ in diff]} "
+                                 f"code {[after_fs.get(n_) for n_ in diff]}")
+                    elif m_st != after_st:
+                        k.append(f"step {step} {op[:3]}: model state {m_st} code {after_st}")
+                # ---- Mon: what was written is the model's dataset, also through the generated code
+                if status == "ok" and op[0] == "write_csv":
+                    pth = model.datainfo.path
+                    if pth is None or not pth.is_file():
+                        mon.append({"cls": "write-csv-no-file", "what": f"step {step}: write_csv returned but datainfo.path {pth} is no file"})
+                    else:
+                        back = ds.read_nonmem_dataset(StringIO(pth.read_text()), ignore_character="@",
+                                                      colnames=list(model.dataset.columns), missing_data_token=MISSING)
+                        if not frames_equal(back, model.dataset):
+                            mon.append({"cls": "written-file-differs-from-dataset",
+                                        "what": f"step {step} {op}: after write_csv the file {pth.name} holds {pth.read_text()!r}, "
+                                                f"model.dataset is {frame_of(model.dataset)}"})
+                if status == "ok" and op[0] == "write_model":
+                    if synced or before_st[1] == []:
+                        synced = True
+                        rb = read_model(d / op[1]).dataset
+                        dl = [l.split() for l in (d / op[1]).read_text().splitlines() if l.startswith("$DATA")]
+                        data_name = dl[0][1] if dl and len(dl[0]) > 1 else None
+                        pth = model.datainfo.path
+                        if not frames_equal(rb, model.dataset) and not op[2] and pth is not None and data_name != pth.name:
+                            # unforced write_model leaves the old file name in $DATA although datainfo.path moved
+                            mon.append({"cls": "write-model-noforce-keeps-old-data-file",
+                                        "what": f"step {step} {op}: write_model(force=False) generated $DATA {data_name} although "
+                                                f"datainfo.path is {pth.name}; read back {frame_of(rb)}, model.dataset {frame_of(model.dataset)}"})
+                        elif not frames_equal(rb, model.dataset):
+                            mon.append({"cls": "written-dataset-read-back-differs",
+                                        "what": f"step {step} {op}: dataset read back through {op[1]} is {frame_of(rb)}, "
+                                                f"model.dataset is {frame_of(model.dataset)}; $DATA: "
+                                                f"{[l for l in (d / op[1]).read_text().splitlines() if l.startswith('$DATA')]}"})
+                        tags.append("h-readback")
+                    else:
+                        tags.append("h-readback-skipped:dataset-replaced-with-datainfo-kept-and-not-written")
+    finally:
+        shutil.rmtree(d, ignore_errors=True)
+    return {"k": k, "mon": mon, "tags": tags, "nontrivial": len(case["ops"]) >= 3}
 
 
 def run_roundtrip(case, drv):
